@@ -68,7 +68,7 @@ struct ElementInput {
 
 enum Status { OK = 0, DROP_PREDICATE, DROP_PREDICATE_SUM, DROP_INVERTED, DROP_AMBIGUOUS_FIT, DROP_BEND_BUDGET, DROP_SHORT_END, NSTATUS };
 static const char* const STATUS_NAME[NSTATUS] = {"ok", "degenerate:corner-predicate", "degenerate:two-corners-or-corner-and-bend-on-one-segment", "degenerate:centre-line-inverted",
-                                                 "ambiguous:bend-fit-at-threshold", "ambiguous:bend-blocked-by-previous-bend", "degenerate:negative-extension-longer-than-first-piece"};
+                                                 "ambiguous:bend-fit-at-threshold", "unused:bend-blocked-by-previous-bend", "degenerate:negative-extension-longer-than-first-piece"};
 
 struct Corner {
     V p;
@@ -112,6 +112,7 @@ struct Oracle {
     std::vector<Corner> corner;  // index = spine point index (1..n-2 used)
     std::vector<Region> regions;
     bool any_turn = false, any_bend = false;
+    bool bends_compete = false;  // some bend fits alone but not after the previous fitted bend took its tangent length
     unsigned valid_ends = 0;  // end variants that are usable
     double bx0 = 1e300, by0 = 1e300, bx1 = -1e300, by1 = -1e300;
 };
@@ -224,7 +225,10 @@ inline Oracle build(const ElementInput& in) {
             double T = R * tan(fabs(c.phi) / 2);
             bool fits = R > c.hw && T <= o.remaining[i - 1] && T <= o.remaining[i];
             if (fabs(R - c.hw) < 1e-9 || (R > c.hw && (fabs(T - o.remaining[i - 1]) < 1e-7 || fabs(T - o.remaining[i]) < 1e-7))) { o.status = DROP_AMBIGUOUS_FIT; return o; }
-            if (!fits && R > c.hw && T <= o.L[i - 1] && T <= o.L[i] && T > o.remaining[i - 1]) { o.status = DROP_BEND_BUDGET; return o; }
+            // Documented rule (to_polygons and element_center agree): bends are placed in path order and the tangent
+            // length used by a fitted bend is no longer available to the next one (len_next -= len_required).  A
+            // bend that would fit on the un-bent segment but not on what the previous bend left over does NOT fit.
+            if (!fits && R > c.hw && T <= o.L[i - 1] && T <= o.L[i] && T > o.remaining[i - 1]) o.bends_compete = true;
             if (!fits) continue;
             c.bend = true;
             o.any_bend = true;
